@@ -24,6 +24,9 @@ func checkC06(c *Ctx, r *Report) {
 	// default reductions may replace error cells only through the row default itself: a cell is blanked exactly when
 	// it equals its own row's default, otherwise an error cell (e.g. the %nonassoc one) silently becomes a reduce
 	includeSome(r, "C06.d", func(sub *Report) { c05c(c, sub) }, "blank-equals-own-default")
+	// the cell of an unresolvable (%nonassoc) conflict must hold the error code: GenTable leaves the prefill alone for
+	// an ERROR action (C04.d)
+	includeSome(r, "C06.d", func(sub *Report) { c04d(c, sub) }, "ERROR-keeps-prefill", "cell-writer")
 	// a token code must reach a terminal's column only: translate's cases are exactly the terminals (C11.c)
 	sub := &Report{Prop: "C06", Extra: map[string]interface{}{}}
 	c11c(c, sub, st)
